@@ -536,7 +536,7 @@ def generate(unit: Unit, canary=None) -> Generated:
                         take = False
                     elif m.kind == 'fn' and (m.name in want or spec['all_fns']):
                         take = True
-                    elif m.kind == 'fn' and spec['others'] == 'stub' and not gated:
+                    elif m.kind == 'fn' and spec['others'] == 'stub' and not gated and not _returns_impl_trait(src, m):
                         take = True   # ambient member: verbatim signature, body dropped, no contract (callers learn nothing about it)
                     elif m.kind in ('type', 'const') and it.kind == 'impl' and ' for ' in (' ' + it.header + ' '):
                         take = True  # associated types/consts of trait impls
@@ -585,6 +585,15 @@ def generate(unit: Unit, canary=None) -> Generated:
     for f in g.fns:
         f.clauses = [c for c in g.clauses if c.fn == f.qual]
     return g
+
+
+def _returns_impl_trait(src, m):
+    """`-> impl Trait` cannot be stubbed with unimplemented!()"""
+    toks = src.toks[m.kw:(m.body_open or m.end)]
+    for i in range(len(toks) - 2):
+        if toks[i].text == '-' and toks[i + 1].text == '>' and toks[i + 2].text == 'impl':
+            return True
+    return False
 
 
 def _short_hdr(it):
